@@ -94,6 +94,8 @@ fn siblings() -> Vec<(String, String)> {
     v
 }
 
+const BULK_CHAINS: [&str; 2] = ["bulk", "bulk-2"];
+
 const CONTENTS: [Content; 6] = [
     Content { src: 0, dest: 0, hash: 0 },
     Content { src: 0, dest: 1, hash: 0 },
@@ -403,7 +405,8 @@ impl Scenario for C02 {
                     (
                         None,
                         msg_scval(
-                            &Msg { chain: "bulk".into(), id: format!("b{}", i), src: "s".into(), dest: 0, payload_hash: H1 },
+                            // neighbours share their id and differ in the source chain only
+                            &Msg { chain: BULK_CHAINS[i % 2].into(), id: format!("b{}", i / 2), src: "s".into(), dest: 0, payload_hash: H1 },
                             &w.sc_addr(&ctx.dests[0]),
                         ),
                     )
@@ -428,7 +431,7 @@ impl Scenario for C02 {
                     let got = w.query(
                         &ctx.gw,
                         "is_message_approved",
-                        &[to_val(env, &sstr("bulk")), to_val(env, &sstr(&format!("b{}", i))), to_val(env, &sstr("s")), ctx.dests[0].to_val(), to_val(env, &sbytes(&H1))],
+                        &[to_val(env, &sstr(BULK_CHAINS[i % 2])), to_val(env, &sstr(&format!("b{}", i / 2))), to_val(env, &sstr("s")), ctx.dests[0].to_val(), to_val(env, &sbytes(&H1))],
                     );
                     out.expect(got == Some(ScVal::Bool(true)), "bulk.entry-not-approved", || format!("entry {} of a batch of {}: {:?}", i, msgs.len(), got));
                 }
@@ -468,7 +471,7 @@ fn main() {
         let mut o = Opts::new(tier, if tier == "quick" { 12 } else { 16 });
         o.min_depth = 4;
         o.xcheck = tier == "thorough";
-        o.rule = "all sequences over {approve single x4 contents per key, 4 batches (same-key/different-content, identical twins, two keys, three entries), a signer rotation, validate_message x {3 callers (two principals, one calling contract; a fourth destination, the account-type address made of the first principal's 32 bytes, can be approved for but never consumes), 2 source addresses differing only in letter case, 2 payload hashes, authorised or not} per key, consumption attempts for never-approved messages with an empty id / empty chain name, advance 20 ledgers (bounded)}; keys 0/1 differ only in where chain ends and id begins, key 2 from key 0 only in letter case and a trailing blank; ids are 40 bytes with every customary separator; 12 never-approved sibling keys (separator shifted into the chain, same 32-byte prefix, same length) must never show a status; from every state without time passing a batch of 100 (quick) / 300 (thorough) fresh messages plus the three keys is approved on a snapshot and every entry checked; explored to fixpoint of the finite status graph; after every new state is_message_approved for all key x content pairs and is_message_executed for all keys are compared with the model".into();
+        o.rule = "all sequences over {approve single x4 contents per key, 4 batches (same-key/different-content, identical twins, two keys, three entries), a signer rotation, validate_message x {3 callers (two principals, one calling contract; a fourth destination, the account-type address made of the first principal's 32 bytes, can be approved for but never consumes), 2 source addresses differing only in letter case, 2 payload hashes, authorised or not} per key, consumption attempts for never-approved messages with an empty id / empty chain name, advance 20 ledgers (bounded)}; keys 0/1 differ only in where chain ends and id begins, key 2 from key 0 only in letter case and a trailing blank; ids are 40 bytes with every customary separator; 12 never-approved sibling keys (separator shifted into the chain, same 32-byte prefix, same length) must never show a status; from every state without time passing a batch of 100 (quick) / 300 (thorough) fresh messages (neighbours share their id and differ in the source chain only) plus the three keys is approved on a snapshot and every entry checked; explored to fixpoint of the finite status graph; after every new state is_message_approved for all key x content pairs and is_message_executed for all keys are compared with the model".into();
         (s, o)
     });
 }
